@@ -72,15 +72,22 @@ fn observe(ret: Option<TracedValue>, m: &TracedValues<String>, probe: &[&str]) -
     // `&TracedValues` IntoIterator must agree with iter()
     let by_ref: Vec<(String, TracedValue)> = (&*m).into_iter().map(|(k, v)| (k.to_owned(), v.clone())).collect();
     let itlen = if cpairs(&by_ref) == cpairs(&fwd) { m.iter().len() } else { usize::MAX };
+    // `values[name]` panics when the name is not defined
+    let index: Vec<Option<TracedValue>> = probe
+        .iter()
+        .map(|p| std::panic::catch_unwind(std::panic::AssertUnwindSafe(|| m[*p].clone())).ok())
+        .collect();
     format!(
-        "mk_vobs {} {} {} {} {} {} {}",
+        "mk_vobs {} {} {} {} {} {} {} {} {}",
         copt(ret.as_ref(), ctv),
         m.len(),
         itlen,
         cpairs(&fwd),
         cpairs(&back),
         cpairs(&into),
-        clist(probe.iter(), |p| copt(m.get(p), ctv))
+        clist(probe.iter(), |p| copt(m.get(p), ctv)),
+        cbool(m.is_empty()),
+        clist(index.iter(), |v| copt(v.as_ref(), ctv))
     )
 }
 
@@ -228,6 +235,8 @@ fn boundary_values() -> Vec<TracedValue> {
     out.extend(FLOAT_BITS.iter().map(|b| TracedValue::Float(f64::from_bits(*b))));
     out.extend(STRS.iter().map(|s| TracedValue::String((*s).to_owned())));
     out.push(mk_object("x"));
+    out.push(mk_object("Obj { x: 1 }"));
+    out.push(mk_object(""));
     out.push(mk_error(&["x".to_owned(), "y".to_owned()]));
     out
 }
@@ -310,6 +319,20 @@ pub fn run(o: &Opts) {
     for v in &vals {
         for x in &consts {
             conv_case(&mut sink, idx, "conv-grid", v, x);
+            idx += 1;
+        }
+    }
+
+    // 2b. Debug-object accessors on every boundary value
+    for v in &vals {
+        for rendered in ["x", "Obj { x: 1 }", ""] {
+            if sink.wants(idx) {
+                let impl_str = v.as_debug_str().map(str::to_owned);
+                let impl_is = v.is_debug(&format_args!("{rendered}"));
+                let judge = format!("judge_debug {} {} {} {}", ctv(v), cstr(rendered), copt(impl_str.as_deref(), cstr), cbool(impl_is));
+                let input = format!("{} {}", ctv(v), cstr(rendered));
+                sink.case(idx, "debug-accessors", &judge, &input, matches!(v, TracedValue::Object(_)), || serde_json::json!({ "value": ctv(v), "rendered": rendered }));
+            }
             idx += 1;
         }
     }
